@@ -687,16 +687,26 @@ def gen_case(rng, idx):
             neg = Not(inner)
         node = And([pos, neg]) if rng.random() < 0.7 else And([pos, gen_plain(rng, 1, allow_unicode=False)])
         return dict(kind="lark", text="start: T\nT: %s\n" % to_lark(node), node=node)
-    mode = rng.choice(["chunks", "words", "chars"])
+    mode = rng.choice(["chunks", "words", "chars", "chars"])
     if mode == "chunks":
-        chunks = ["".join(rng.choice("abcé ") for _ in range(rng.randint(1, 3))) for _ in range(rng.randint(2, 4))]
+        pool = ["a", "b", "ab", "ba", "c", "é", " ", "abc"]
+        chunks = [rng.choice(pool) for _ in range(rng.randint(2, 7))]
         node = Substr(chunks, "chunks")
     elif mode == "chars":
-        src = "".join(rng.choice("abcé ") for _ in range(rng.randint(2, 5)))
+        # repeated letters matter: the suffix automaton has to split states exactly when a context repeats
+        alpha = rng.choice(["ab", "abc", "abé", "ab "])
+        src = "".join(rng.choice(alpha) for _ in range(rng.randint(2, 9)))
         node = Substr(list(src), "chars", src)
     else:
-        src = rng.choice(["foo bar. baz", "ab cd", "a, b", "x y z", "héllo wörld"])
-        node = Substr(None or _split_words(src), "words", src)
+        words = ["a", "b", "ab", "the", "cat", "on"]
+        seps = [" ", " ", ". ", ", "]
+        k = rng.randint(2, 6)
+        src = ""
+        for i in range(k):
+            if i:
+                src += rng.choice(seps)
+            src += rng.choice(words)
+        node = Substr(_split_words(src), "words", src)
     return dict(kind="lark", text="start: T\nT: %s\n" % to_lark(node), node=node)
 
 
